@@ -151,3 +151,48 @@ def render_doc(d: dict) -> str:
     head = "".join(_comment(c, 0) + "\n" for c in d.get("lead", []))
     foot = "".join("\n" + _comment(c, 0) for c in d.get("trail", []))
     return head + inner + foot + "\n" * d.get("nl", 1)
+
+
+# ---------------------------------------------------------------------------
+# Scoping chains (Scoping.tla) -> text
+
+def _bind_text(b: dict) -> str:
+    if b["k"] == "lit":
+        return f"{b['n']} = {b['v']};"
+    if b["k"] == "ref":
+        return f"{b['n']} = {b['m']};"
+    return f"inherit {b['n']};"
+
+
+def render_chain(ch: list[dict], name: str = "a") -> tuple[str, list[str], bool]:
+    """(text, access keys down to the reference, editable) for a chain of frames (outermost first).
+    The reference `x = <name>;' sits in a holder set below the last frame, or inside the last frame when that is `rec'."""
+    frames = list(ch)
+    keys = ["x"]
+    if frames and frames[-1]["kind"] == "rec":
+        last = frames.pop()
+        inner = "rec { " + " ".join(_bind_text(b) for b in last["binds"]) + f" x = {name}; }}"
+    else:
+        inner = f"{{ x = {name}; }}"
+    seen_set = False
+    editable = True
+    for f in reversed(frames):
+        binds = " ".join(_bind_text(b) for b in f["binds"])
+        k = f["kind"]
+        if k == "let":
+            if not f["binds"]:
+                continue
+            inner = f"let {binds} in {inner}"
+        elif k == "with":
+            inner = f"with {{ {binds} }}; {inner}"
+        else:
+            inner = ("rec " if k == "rec" else "") + "{ " + (binds + " " if binds else "") + f"k = {inner}; }}"
+            keys.insert(0, "k")
+    # editable by `set k...x' iff no let / with frame sits below a set frame
+    below_set = False
+    for f in frames:
+        if f["kind"] in ("rec", "set"):
+            below_set = True
+        elif below_set and (f["kind"] == "with" or f["binds"]):
+            editable = False
+    return inner + "\n", keys, editable
